@@ -297,6 +297,29 @@ impl Property for C12 {
                             model.remove(name(doc));
                         }
                     }
+                    if external {
+                        // the other program writes the closed document's file once more: what the file held at
+                        // the moment of closing is not what it holds when it is read next (the close has been
+                        // handled by then: the server is idle and has answered a request sent behind it)
+                        if !s.settle() {
+                            verdict = Some(Verdict::Skip("not-idle"));
+                            break;
+                        }
+                        writes += 1;
+                        let new_r = if writes % 2 == 1 { "include \"i.td\"\ndef r_disk_b : DiskI;\ndef r_disk_j : DiskJ;\n" } else { DISK_R };
+                        let new_i = match (writes % 2 == 1, cyclic) {
+                            (true, false) => "class DiskJ { int a = 1; }\n".to_string(),
+                            (true, true) => "include \"r.td\"\nclass DiskJ { int a = 1; }\n".to_string(),
+                            (false, _) => disk_i.to_string(),
+                        };
+                        for (n, t) in [("r.td", in_lib(new_r.to_string())), ("i.td", new_i)] {
+                            s.tw.write(n, &t);
+                            disk.insert(n.to_string(), t.clone());
+                            if !s.opened.contains(n) {
+                                model.insert(n.to_string(), t);
+                            }
+                        }
+                    }
                 }
                 continue;
             }
